@@ -435,6 +435,9 @@ func (h *Host) register() {
 		must(h.dr.ConvertAndAddFunction("via", func(from, to string) string { h.call("fn", "via", from, to); return to }))
 		must(h.dr.ConvertAndAddFunction("pw", func(name string, x float64) {
 			h.call("fn", "pw", name, x)
+			if gStats != nil {
+				gStats.fault("host_function_writes_variable")
+			}
 			if h.st != nil {
 				h.st.SetNumberValue(name, x)
 			}
@@ -442,6 +445,9 @@ func (h *Host) register() {
 		must(h.dr.ConvertAndAddFunction("pfail", func(x float64) (float64, error) { h.call("fn", "pfail", x); return 0, hostError(int(x)) }))
 	}
 	if h.spec.FailedRegs {
+		if gStats != nil {
+			gStats.fault("registration_refused")
+		}
 		// the errors are the expected answer; what must not happen is a half-made entry
 		_ = h.dr.ConvertAndAddFunction("nofunc", func(c chan int) chan int { return c })
 		_ = h.dr.ConvertAndAddFunction("round", func(c chan int) chan int { return c })
@@ -450,6 +456,9 @@ func (h *Host) register() {
 		_ = h.dr.ConvertAndAddCommand("wait", func(c chan int) {})
 	}
 	if h.spec.Overrides {
+		if gStats != nil {
+			gStats.fault("host_overrides_builtin_names")
+		}
 		h.dr.AddFunction("visited_count", func(args []*variable.Value) (*variable.Value, error) {
 			h.call("fn", "host_visited_count")
 			return variable.NewNumber(42), nil
@@ -757,6 +766,9 @@ func (h *Host) reenter(inv *Inv) {
 	if !h.spec.Reentrant || h.dr == nil {
 		return
 	}
+	if gStats != nil {
+		gStats.fault("handler_registers_while_running")
+	}
 	name := fmt.Sprintf("reg%d", inv.Index)
 	h.dr.AddCommand(name, func(args []*variable.Value) <-chan error {
 		ch := make(chan error, 1)
@@ -792,6 +804,9 @@ func (h *Host) Release(i int, failed bool) bool {
 // complete reports a handler's result on its channel: by a send, or - a common Go idiom for "done" -
 // by closing the channel without sending when there is no error (after sending when there is one).
 func complete(ch chan error, res error, closing bool) {
+	if closing && gStats != nil {
+		gStats.fault("completion_by_close")
+	}
 	if closing && res == nil {
 		close(ch)
 		return
